@@ -2,7 +2,9 @@
 // keys / signatures / ids are faithful; the pairing is bilinear and non-degenerate.
 //
 // Monitor: byte-level uniqueness oracle around the real groupsig.VerifySig:
-//   VerifySig(pk, m, decode(b)) == true  <=>  b == Sign(sk, m).Serialize()
+//
+//	VerifySig(pk, m, decode(b)) == true  <=>  b == Sign(sk, m).Serialize()
+//
 // for every presented signature byte string b (pk honest), and likewise for
 // presented public-key bytes (signature honest): true <=> b == honest pk encoding.
 // Presented strings are derived algebraically (math/big reference in
@@ -293,19 +295,35 @@ func evalVerify(r *mon.Run, cn counter, h *honest, c Case) {
 	}
 }
 
-// parserDiff: bn256.G1/G2.Unmarshal must fail exactly on short or off-curve input
-// and, when it succeeds, Marshal must return the reduced encoding of the point.
+// canonical reports whether b is exactly n coordinates of 32 bytes, each < P.
+func canonical(b []byte, n int) bool {
+	if len(b) != 32*n {
+		return false
+	}
+	for i := 0; i < n; i++ {
+		if new(big.Int).SetBytes(b[32*i:32*i+32]).Cmp(bnref.P) >= 0 {
+			return false
+		}
+	}
+	return true
+}
+
+// parserDiff: bn256.G1/G2.Unmarshal must fail on short or off-curve input, must
+// succeed on the canonical encoding of a finite on-curve point, and when it
+// succeeds Marshal must return the reduced encoding of what was read. (Identity,
+// non-reduced and over-long inputs may be refused or not at this level; whether
+// they are *accepted by VerifySig* is judged by the uniqueness oracle.)
 func parserDiff(r *mon.Run, cn counter, h *honest, c Case) {
 	r.Guard("C14:Unmarshal", c, func() {
 		if c.Fam == "sig" {
-			valid, _ := refG1Valid(c.B)
+			valid, inf := refG1Valid(c.B)
 			var g bn.G1
 			_, err := g.Unmarshal(c.B)
 			cn.Count("parser_diff_checks", 1)
 			if err == nil && !valid {
 				agg.add("C14:G1.Unmarshal:accepted-invalid-point", "bn256.G1.Unmarshal returned no error for bytes that are short or not on y^2=x^3+3 (class "+c.Class+")", c, h.idx)
-			} else if err != nil && valid {
-				agg.add("C14:G1.Unmarshal:rejected-valid-point", "bn256.G1.Unmarshal: "+err.Error()+" for an on-curve point (class "+c.Class+")", c, h.idx)
+			} else if err != nil && valid && !inf && canonical(c.B, 2) {
+				agg.add("C14:G1.Unmarshal:rejected-valid-point", "bn256.G1.Unmarshal: "+err.Error()+" for the canonical encoding of an on-curve point (class "+c.Class+")", c, h.idx)
 			} else if err == nil {
 				x, y, _ := bnref.G1Parse(c.B)
 				want := append(bnref.Pad32(x.Mod(x, bnref.P)), bnref.Pad32(y.Mod(y, bnref.P))...)
@@ -320,8 +338,9 @@ func parserDiff(r *mon.Run, cn counter, h *honest, c Case) {
 			cn.Count("parser_diff_checks", 1)
 			if err == nil && !valid {
 				agg.add("C14:G2.Unmarshal:accepted-invalid-point", "bn256.G2.Unmarshal returned no error for bytes that are short or not on the twist (class "+c.Class+")", c, h.idx)
-			} else if err != nil && valid {
-				agg.add("C14:G2.Unmarshal:rejected-valid-point", "bn256.G2.Unmarshal: "+err.Error()+" for a point on the twist (class "+c.Class+")", c, h.idx)
+			} else if err != nil && valid && !inf && canonical(c.B, 4) && !strings.HasPrefix(c.Class, "nonsubgroup") && !strings.HasPrefix(c.Class, "bitflip") {
+				// (a subgroup check in the parser would legitimately refuse twist points outside G2)
+				agg.add("C14:G2.Unmarshal:rejected-valid-point", "bn256.G2.Unmarshal: "+err.Error()+" for the canonical encoding of a G2 point (class "+c.Class+")", c, h.idx)
 			} else if err == nil && !inf {
 				cs, _ := bnref.G2Parse(c.B)
 				var want []byte
@@ -555,8 +574,10 @@ func pkDerivations(r *mon.Run, h *honest, sk2 groupsig.Seckey, flips bool) []der
 		tb := bnref.G2Bytes(X, Y)
 		T := new(bn.G2)
 		if _, err := T.Unmarshal(tb); err != nil {
-			// the reference says the point is on the twist
-			agg.add("C14:G2.Unmarshal:rejected-valid-point", "bn256.G2.Unmarshal: "+err.Error()+" for a reference twist point", Case{Fam: "pk", Class: "nonsubgroup:T", Path: "Pubkey.Deserialize", SK: h.sk.Serialize(), Msg: h.msg, B: tb}, h.idx)
+			// a parser with a subgroup check refuses T; it is still presented (and must be rejected)
+			r.Count("nonsubgroup_points_constructed", 1)
+			r.Count("nonsubgroup_points_refused_by_G2_Unmarshal", 1)
+			add("nonsubgroup:T", tb)
 			break
 		}
 		C := new(bn.G2).ScalarMult(T, bnref.Order) // order divides the cofactor
@@ -1083,7 +1104,7 @@ func main() {
 		replay(r, p)
 	}
 	workers := runtime.NumCPU()
-	nPairs := r.Pick(300, 24000)
+	nPairs := r.Pick(300, 20000)
 	nFlip := r.Pick(20, 500)
 	nLaw := r.Pick(300, 8000)
 	nScalar := r.Pick(2000, 100000)
